@@ -53,6 +53,10 @@ def run_struct(ctx, prop, n_random, length=(5, 40), failing=0.3, value_heavy=Fal
             rec.count("deck", dname)
             if i % 97 == 0:
                 rec.sample({"deck": name, "ops": ops[len(histrun.BASE):] if dname == "struct" else ops})
+    # 1b. the repository's own test-suite as one more workload for the tree / naming / value invariants (one shard)
+    if prop in ("C03", "C04", "C05") and ctx.shard == 0:
+        from checks import repo_tests
+        repo_tests.run(ctx, prop)
     # 2. random histories; cells with an open known finding are skipped (re-confirmed by the deck above)
     skip = known_cells()
     rec.extra["skipped_cells_with_open_findings"] = sorted(skip) if ctx.shard == 0 else []
@@ -90,6 +94,9 @@ def core_known(prop, key):
 
 
 def replay(case, ctx, prop):
+    if "repo_test" in case:
+        from checks import repo_tests
+        return repo_tests.run(ctx, prop)
     runner = histrun.Runner(ctx.rec, prop)
     events, done = runner.run(case["ops"], label="replay")
     for f, k, w in events:
